@@ -170,7 +170,7 @@ func (fr *Frame) trustedCall(st *State, fn *ssa.Function, args []Val, resT types
 		g.assume(implies(r, g.idxLe("(str_len "+args[1].S+")", "(str_len "+args[0].S+")")))
 		return Val{T: types.Typ[types.Bool], S: r}, true
 	case "unicode/utf8.DecodeRuneInString":
-		g.note("trusted: utf8.DecodeRuneInString returns (RuneError,0) on empty input, else 1 <= size <= min(4,len); ASCII bytes decode to themselves with size 1")
+		g.note("trusted: utf8.DecodeRuneInString returns (RuneError,0) on empty input, else 1 <= size <= min(4,len); ASCII bytes decode to themselves with size 1; the bytes of a longer encoding are all >= 0x80")
 		tup := resT.(*types.Tuple)
 		s := args[0].S
 		r := g.havocVal("rune", tup.At(0).Type())
@@ -192,6 +192,11 @@ func (fr *Frame) trustedCall(st *State, fn *ssa.Function, args []Val, resT types
 		}
 		g.assume(implies(and(not(empty), ascii), and("(= "+szI+" "+g.idxConst(1)+")", "(= "+r.S+" "+b0r+")")))
 		g.assume(implies(and(not(empty), not(ascii)), and(g.intCmp(">=", r.S, g.S.intConst(0x80, 32), rT), g.intCmp("<=", r.S, g.S.intConst(0x10FFFF, 32), rT))))
+		// a multi-byte encoding consists of non-ASCII bytes only
+		for k := 1; k <= 3; k++ {
+			bk := g.strAt(s, g.idxConst(int64(k)))
+			g.assume(implies(and(not(empty), g.idxLt(g.idxConst(int64(k)), szI)), g.intCmp(">=", bk, g.byteConst(0x80), types.Typ[types.Uint8])))
+		}
 		return Val{T: resT, Tup: []Val{r, sz}}, true
 	case "unicode.IsSpace", "unicode.IsDigit", "unicode.IsLetter":
 		g.note("trusted: " + name + " is an uninterpreted predicate on runes, exact on ASCII")
